@@ -135,6 +135,26 @@ CLAIMED = {
     note='trusted: IR diff / snapshot functions (vlib/pipeline.py), family membership; the solver mostly enumerates RNG outcomes here',
     technique='bounded symbolic execution of dump/load round trips and of the mutations under a shared symbolic RNG (record/replay)',
     design='4/C13'),
+ 'C03': dict(
+    text='Bounded exploration of the real TypeErasure over the program families (41 fixtures + generated programs): attribute-level '
+         'IR diff before/after must consist only of removed var_type/ret_type, type-argument lists flagged inferable (and the '
+         'analysis annotation on call nodes); every removed annotation whose initialiser/body the small reference typer can type must '
+         'be a supertype of (or equal to) the re-inferred type. The dfs feasibility kernel is covered by C19. The solver only selects '
+         'members here; the claim is partial (undecided re-inferences are counted in the evidence).',
+    note='trusted: vlib/minityper.py (answers only on evident expressions), vlib/pipeline.py irdiff; programs outside the families, '
+         'diamond inference and the choice among feasible subsets are outside',
+    technique='bounded exploration of TypeErasure over program families: IR-diff frame condition + re-inference by a small reference typer',
+    design='4/C03'),
+ 'C04': dict(
+    text='Bounded symbolic execution of the real TypeOverwriting over the program families (as generated and after erasure) under a '
+         'symbolic RNG (first 2 (thorough 3) draws of transform(): method, node, ...): when it reports an injected error the IR diff is '
+         'exactly one declared variable type / return type / type argument, old and new type are unrelated in the declarative relation, '
+         'the message names old type, new type and node, and the reference typer (where it can type the initialiser/body) rejects the '
+         'new annotation; when nothing is injected IR and translation are unchanged.',
+    note='trusted: vlib/minityper.py, vlib/ref.py, irdiff; fixtures that alias one type object between a declaration and its '
+         'initialiser give no verdict; overwritten type arguments are checked for shape only',
+    technique='bounded symbolic execution of TypeOverwriting under a symbolic RNG over program families; IR diff + declarative relation + small reference typer',
+    design='4/C04'),
 }
 
 NOT_YET = 'check not built yet in this round (planned per DESIGN.md build order); not claimed'
